@@ -35,6 +35,32 @@ def slot(q, ty):
     }}"""
 
 
+RT_SPECS = ["{}", "{:.1}", "{:.0}", "{:.3}", "{:e}", "{:.2e}", "{:+}"]
+
+
+def rt_slot(q, u):
+    """format (both styles, several specs without width) then parse: must give back the quantity of the printed number in that unit."""
+    arms = "\n".join(f'            "{i}" => format!("{sp}", $x),' for i, sp in enumerate(RT_SPECS))
+    qm, alias, un = q["module"], q["alias"], u["name"]
+    return f"""    type V = f64;
+    type Q = uom::si::{qm}::{alias}<uom::si::SI<V>, V>;
+    type N = uom::si::{qm}::{un};
+    use uom::fmt::DisplayStyle;
+    macro_rules! fm {{ ($x:expr) => {{ match a[1] {{
+{arms}
+            _ => "BADSPEC".to_string(),
+        }} }} }}
+    let style = if a[2] == "d" {{ DisplayStyle::Description }} else {{ DisplayStyle::Abbreviation }};
+    let q = Q::new::<N>(f64_of(a[3]));
+    let text = fm!(q.into_format_args(uom::si::{qm}::{un}, style));
+    let num = fm!(q.get::<N>());
+    let expect = match num.parse::<V>() {{ Ok(x) => hex64(Q::new::<N>(x).value), Err(_) => "novalue".to_string() }};
+    match text.parse::<Q>() {{
+        Ok(b) => format!("ok {{}} {{}} {{}}", hex64(b.value), expect, hexs(&text)),
+        Err(e) => format!("err {{:?}} {{}} {{}}", e, expect, hexs(&text)),
+    }}"""
+
+
 BLANKS = [" ", "\t", " ", " ", "\n", "　"]
 
 
@@ -94,6 +120,20 @@ def run(ctx):
                 cid = f"p{len(cases)}"
                 cases.append((cid, sl, ["parse", hexs(txt)]))
                 meta[cid] = (ty, q, txt, cl, sl)
+    # format -> parse on the implementation itself (f64, SI): every spec without a width, both styles
+    from . import convlib
+    rt_cases = {}
+    rrng = ctx.rng.fork("roundtrip")
+    for (q, u) in convlib.select_units(t, rrng.fork("units"), 40 if quick else 300):
+        if not u["sing"] or not u["abbr"]:
+            continue            # the coherent unit of ratio has empty labels: "1 " cannot be parsed back (documented)
+        sl = h.slot(rt_slot(q, u))
+        for v in (1.0, 1.5, 2.25, 2500.0, 3.0, 0.001, -7.0):
+            for k in range(len(RT_SPECS)):
+                for st in ("d", "a"):
+                    cid = f"r{len(cases)}"
+                    cases.append((cid, sl, ["rt", str(k), st, FC.hexbits(C.f64_bits(v), "f64")]))
+                    rt_cases[cid] = (q, u, RT_SPECS[k], st, v, sl)
     ctx.log(f"{len(h.slots)} slots, {len(cases)} strings; building harness")
     if not h.build():
         ctx.log(h.build_log[-3000:])
@@ -101,7 +141,8 @@ def run(ctx):
         return
     impl = h.run(cases)
     # model: parse with the value oracle reported by the harness for the text before the first space
-    for cid, sl, args in cases:
+    parse_cases = [c for c in cases if c[0] in meta]
+    for cid, sl, args in parse_cases:
         ty, q, txt, cl, _ = meta[cid]
         got = impl.get(cid)
         if got is None or got == "PANIC":
@@ -114,7 +155,7 @@ def run(ctx):
     # expected stored value for successful parses: new::<unit>(v) through the conversion model
     nlines = []
     U = T.sexp_list(t.base_unit_exprs(T.BASE_SETS["si"]))
-    for cid, sl, args in cases:
+    for cid, sl, args in parse_cases:
         ty, q, txt, cl, _ = meta[cid]
         m = model.get(cid, "").split()
         got = impl.get(cid, "")
@@ -128,7 +169,7 @@ def run(ctx):
     skipped = 0
     hist = {}
     distinct = set()
-    for cid, sl, args in cases:
+    for cid, sl, args in parse_cases:
         ty, q, txt, cl, _ = meta[cid]
         got = impl.get(cid)
         hist[cl] = hist.get(cl, 0) + 1
@@ -160,7 +201,7 @@ def run(ctx):
                 if f[2] != wv:
                     bad.append((cid, got, f"ok value {wv} = new::<{u['name']}>({f[1]})"))
     # spec (property text) independent of the model: expected class per generated string class
-    for cid, sl, args in cases:
+    for cid, sl, args in parse_cases:
         ty, q, txt, cl, _ = meta[cid]
         got = impl.get(cid, "")
         value_parses = got.startswith("ok ") or got.endswith(" 1")
@@ -177,6 +218,22 @@ def run(ctx):
                      "model": model.get(cid), "harness": {"features": h.features, "prelude": h.prelude,
                                                           "cases": [{"slot_body": h.slots[sl], "args": args, "model": None}]}}, **extra)
 
+    # format -> parse round trips
+    rt_fail = []
+    for cid, (q, u, spec, st, v, sl) in rt_cases.items():
+        got = impl.get(cid) or "none"
+        f = got.split(" ")
+        hist["roundtrip"] = hist.get("roundtrip", 0) + 1
+        text = unhex(f[-1]) if len(f) >= 3 else "?"
+        if f[0] != "ok":
+            rt_fail.append((cid, f"format!(\"{spec}\", {v} {u['name']}, {'Description' if st == 'd' else 'Abbreviation'}) = `{text}` does not parse back: {' '.join(f[:-2])}"))
+        elif f[1] != f[2]:
+            rt_fail.append((cid, f"`{text}` parses back to stored {f[1]}, but the printed number in {u['name']} is stored as {f[2]}"))
+    for cid, why in rt_fail[:3]:
+        q, u, spec, st, v, sl = rt_cases[cid]
+        ctx.violation({"kind": "format-parse round trip", "quantity": q["module"], "unit": u["name"], "spec": spec, "style": st, "value": v, "detail": why,
+                       "spec_text": "C12: parsing inverts formatting (the text printed for a quantity in a unit parses to the quantity of the printed number in that unit)",
+                       "harness": {"features": h.features, "prelude": h.prelude, "cases": [{"slot_body": h.slots[sl], "args": next(a for c, s_, a in cases if c == cid)}]}})
     for cid, why in spec_fail[:5]:
         ctx.violation(replay_case(cid, {"spec": "C12", "detail": why}))
     for cid, got, want in bad[:5 - min(5, len(spec_fail))]:
@@ -189,12 +246,14 @@ def run(ctx):
     cov["rule"] = ("strings parsed as every SI quantity (f64; i64 and BigRational for five quantities): '<number> <label>' for the three labels of "
                    "all (thorough) / 14 rotating (quick) units per quantity, plus a malformed stream per quantity (no/leading/double space, Unicode blanks, "
                    "case changes, bad number, bad number AND unit, NaN/inf/+, ratio literal, empty label, labels of other quantities, truncated/suffixed "
-                   "labels); distinct by (quantity, text)")
+                   "labels); distinct by (quantity, text); format -> parse round trips on the implementation (f64, 40 / 300 units x 7 values x 7 specs without width x both styles)")
+    cov["format_parse_roundtrips"] = len(rt_cases)
+    cov["format_parse_roundtrip_failures"] = len(rt_fail)
     cov["disagreements_checked"] = len(bad)
-    cov["spec_failures"] = len(spec_fail)
+    cov["spec_failures"] = len(spec_fail) + len(rt_fail)
     cov["histogram"] = hist
     cov["skipped_i64_unrepresentable_coefficient"] = skipped
-    smp = ctx.rng.fork("samples").sample(cases, 8)
+    smp = ctx.rng.fork("samples").sample(parse_cases, 8)
     cov["samples"] = [{"quantity": meta[c][1]["module"], "storage": meta[c][0], "text": meta[c][2], "class": meta[c][3],
                        "implementation": impl.get(c), "model": model.get(c)} for c, _, a in smp]
 
